@@ -1221,9 +1221,9 @@ func (rs RangeSorter) Less(i, j int) bool {
 	return false
 }
 
-// Normalize ranges - remove overlaps: [1..4],[2..4],[5..7] -> [1..7].
+// Normalize ranges - remove overlaps: [1..4),[2..4),[4..7) -> [1..7).
 // The ranges are expected to be sorted.
-// Ranges are inclusive-inclusive, i.e. [1..3] -> 1, 2, 3.
+// Ranges are inclusive-exclusive, i.e. [1..4) -> 1, 2, 3; Hi == 0 means the single ID Low.
 func (rs RangeSorter) Normalize() RangeSorter {
 	if ll := rs.Len(); ll > 1 {
 		prev := 0
@@ -1233,17 +1233,23 @@ func (rs RangeSorter) Normalize() RangeSorter {
 				// collapse two ranges into one (by doing nothing)
 				continue
 			}
-			// Check for full or partial overlap
-			if rs[prev].Hi > 0 && rs[prev].Hi+1 >= rs[i].Low {
+			// Check for full or partial overlap (or ranges touching each other).
+			if rs[prev].Hi > 0 && rs[prev].Hi >= rs[i].Low {
+				// The end of the next range; a single ID is the range [Low, Low+1).
+				hi := rs[i].Hi
+				if hi == 0 {
+					hi = rs[i].Low + 1
+				}
 				// Partial overlap
-				if rs[prev].Hi < rs[i].Hi {
-					rs[prev].Hi = rs[i].Hi
+				if rs[prev].Hi < hi {
+					rs[prev].Hi = hi
 				}
 				// Otherwise the next range is fully within the previous range, consume it by doing nothing.
 				continue
 			}
-			// No overlap
+			// No overlap: keep the range.
 			prev++
+			rs[prev] = rs[i]
 		}
 		rs = rs[:prev+1]
 	}
